@@ -70,6 +70,10 @@ func Classify(h http.Header) Shareability {
 	age := int64(0)
 	if vs := h.Values("Age"); len(vs) > 0 {
 		a, err := strconv.ParseInt(strings.TrimSpace(vs[0]), 10, 64)
+		if len(vs) == 1 && allDigits(strings.TrimSpace(vs[0])) && (err != nil || a > 1<<40) {
+			// a well-formed decimal Age beyond any lifetime in range ("huge"): lifetime minus Age is not positive
+			return Shareability{Forbidden: true, Why: "lifetime minus (huge) Age not positive"}
+		}
 		if err != nil || a < 0 || a > 1<<40 || len(vs) > 1 {
 			if n == 0 {
 				return Shareability{Forbidden: true, Why: "lifetime 0"}
@@ -82,4 +86,16 @@ func Classify(h http.Header) Shareability {
 		return Shareability{Forbidden: true, Why: "lifetime minus Age not positive"}
 	}
 	return Shareability{Defined: true, Lifetime: n - age}
+}
+
+func allDigits(s string) bool {
+	if s == "" {
+		return false
+	}
+	for _, c := range s {
+		if c < '0' || c > '9' {
+			return false
+		}
+	}
+	return true
 }
